@@ -98,6 +98,25 @@ func c09Pure(c *ctx) {
 			})
 		}
 		rows := [][]interface{}{}
+		// objects the caller holds while unrelated work goes on (tables of other years, other dates, holiday queries)
+		heldBefore := map[string]string{}
+		for tn, x := range objs {
+			heldBefore[tn] = digest(x, nil)
+		}
+		try(func() {
+			for _, dy := range []int{1, -1, 7, 60} {
+				if y2 := m[0] + dy; y2 >= 1 && y2 <= 9998 {
+					calendar.NewLunarYear(y2)
+					s2, _ := safeSolar(y2, 1+(m[1]+3)%12, 11, 23, 30, 0)
+					lunarDigest(s2.GetLunar())
+					calendar.NewLunarMonthFromYm(y2, 12).Next(2)
+				}
+			}
+			HolidayUtil.GetHolidaysByYear(2020)
+		})
+		for tn, x := range objs {
+			rows = append(rows, []interface{}{tn, "(held while other years and dates are computed)", "", heldBefore[tn], digest(x, nil), "", "", 0})
+		}
 		for tn, x := range objs {
 			v := reflect.ValueOf(x)
 			if !v.IsValid() || (v.Kind() == reflect.Ptr && v.IsNil()) {
